@@ -38,11 +38,38 @@
 namespace chaiscript::detail::threading {
 #ifndef CHAISCRIPT_NO_THREADS
 
+#ifdef CHAISCRIPT_VERIF
+  // verification build: the same std locks, with a yield point before each acquisition (hook H4)
+  template<typename T>
+  class unique_lock : public std::unique_lock<T> {
+  public:
+    explicit unique_lock(T &t_mutex)
+        : std::unique_lock<T>((chaiscript::verif::yield_point(1), t_mutex)) {
+    }
+    void lock() {
+      chaiscript::verif::yield_point(2);
+      std::unique_lock<T>::lock();
+    }
+  };
+
+  template<typename T>
+  class shared_lock : public std::shared_lock<T> {
+  public:
+    explicit shared_lock(T &t_mutex)
+        : std::shared_lock<T>((chaiscript::verif::yield_point(3), t_mutex)) {
+    }
+    void lock() {
+      chaiscript::verif::yield_point(4);
+      std::shared_lock<T>::lock();
+    }
+  };
+#else
   template<typename T>
   using unique_lock = std::unique_lock<T>;
 
   template<typename T>
   using shared_lock = std::shared_lock<T>;
+#endif
 
   template<typename T>
   using lock_guard = std::lock_guard<T>;
